@@ -94,7 +94,7 @@ def general_loop_unit(which):
                     # postcondition of one iteration (accepted iff relative error <= 1)
                     acc = ER(g["x"], g["t"], g["dt"]) / par["tol"] <= 1
                     cur = to_z3(u.read((0,)))
-                    c += [z3.BoolVal(g["same_buffer"]), g["dt"] == z3.If(z3.If(g["dt_opt"] <= t1 - g["t"], g["dt_opt"], t1 - g["t"]) >= par["dmin"], z3.If(g["dt_opt"] <= t1 - g["t"], g["dt_opt"], t1 - g["t"]), par["dmin"]),
+                    c += [z3.BoolVal(g["same_buffer"]), g["dt"] > 0, z3.Or(g["dt"] <= t1 - g["t"], z3.And(t1 - g["t"] < par["dmin"], g["dt"] == par["dmin"])),  # a step passes the requested end only when the gap is below dt_min, and then by less than dt_min
                           cur == z3.If(acc, NS(g["x"], g["t"], g["dt"]), g["x"]), t == z3.If(acc, g["t"] + g["dt"], g["t"]),
                           steps == z3.If(acc, g["steps"] + 1, g["steps"]), t < t1, dt_opt >= par["dmin"], dt_opt <= par["dmax"]]
                 return z3.And(*c)
@@ -129,13 +129,14 @@ def general_loop_unit(which):
             acc = ER(g["x"], g["t"], g["dt"]) / par["tol"] <= 1
             U.prove(f"{nm}.ends_at_or_after_t_end", P, r >= t1)
             U.prove(f"{nm}.last_step_was_accepted_with_error<=tolerance", P, z3.And(acc, ER(g["x"], g["t"], g["dt"]) <= par["tol"]))
-            U.prove(f"{nm}.ends_exactly_at_t_end_unless_the_remaining_gap_was_below_dt_min", P, z3.Or(r == t1, z3.And(t1 - g["t"] < par["dmin"], r - t1 < par["dmin"])))
+            U.prove(f"{nm}.ends_exactly_at_t_end", P, r == t1)
+            U.prove(f"{nm}.ends_at_t_end_or_less_than_dt_min_later", P, z3.Or(r == t1, z3.And(t1 - g["t"] < par["dmin"], r - t1 < par["dmin"])))
             U.prove(f"{nm}.final_state_is_the_accepted_estimate", P, to_z3(u.read((0,))) == NS(g["x"], g["t"], g["dt"]))
             U.prove(f"{nm}.returned_time==time_before_last_step+dt_step", P, r == g["t"] + g["dt"])
             U.prove(f"{nm}.info_steps_and_dt_updated", P, z3.And(to_z3(info["steps"]) == par["s0"] + g["steps"] + 1, to_z3(to_real(info["dt"])) == g["dt_opt"]))
             U.cover(f"{nm}.cover", P)
         U.prove(f"adaptive_stepper[{which}].has_return_and_error_paths", [], z3.BoolVal(n_ret >= 1 and n_raise >= 1))
-        U.assume_note("loop invariant: every iteration either accepts (relative error <= 1: state := estimate, t += dt_step, steps += 1) or rejects (state, t, steps unchanged); dt_step = max(min(dt_opt, t_end - t), dt_min); termination is not proved")
+        U.assume_note("loop invariant: every iteration either accepts (relative error <= 1: state := estimate, t += dt_step, steps += 1) or rejects (state, t, steps unchanged); 0 < dt_step, and dt_step <= t_end - t unless that gap is below dt_min (then dt_step = dt_min); termination is not proved")
 
     return unit
 
@@ -179,13 +180,14 @@ def euler_loop_unit(which):
                     ghost["entry"] = dict(x=x, t=t, steps=steps, dt_opt=dt_opt)
                 else:
                     e = ghost["entry"]
-                    dt = z3.If(z3.If(e["dt_opt"] <= t1 - e["t"], e["dt_opt"], t1 - e["t"]) >= par["dmin"], z3.If(e["dt_opt"] <= t1 - e["t"], e["dt_opt"], t1 - e["t"]), par["dmin"])
+                    dt = ghost["dt_code"]
                     mid = e["x"] + dt / 2 * FT(e["x"], e["t"])
                     small = mid + dt / 2 * FT(mid, e["t"] + dt / 2)
                     large = e["x"] + dt * FT(e["x"], e["t"])
                     err = z3.If(large - small >= 0, large - small, small - large)
                     acc = err / par["tol"] <= 1
-                    c += [x == z3.If(acc, small, e["x"]), t == z3.If(acc, e["t"] + dt, e["t"]), steps == z3.If(acc, e["steps"] + 1, e["steps"]), t < t1]
+                    c += [x == z3.If(acc, small, e["x"]), t == z3.If(acc, e["t"] + dt, e["t"]), steps == z3.If(acc, e["steps"] + 1, e["steps"]), t < t1,
+                          dt > 0, z3.Or(dt <= t1 - e["t"], z3.And(t1 - e["t"] < par["dmin"], dt == par["dmin"]))]  # a step passes the end only when the gap is below dt_min
                     ghost["last"] = dict(dt=dt, small=small, err=err, acc=acc, **{"t": e["t"], "x": e["x"]})
                 return z3.And(*c)
 
@@ -204,6 +206,9 @@ def euler_loop_unit(which):
             # the iteration marker: the first rhs call inside the loop body belongs to the arbitrary iteration
             def rhs_marking(arr, t, _rhs=rhs):
                 if ghost.get("entry") is not None:
+                    if ghost["iter"] is None:
+                        # the step of this iteration as the code chose it: the midpoint evaluation is at t + dt_step / 2
+                        ghost["dt_code"] = 2 * (to_z3(to_real(t)) - ghost["entry"]["t"])
                     ghost["iter"] = True
                 return _rhs(arr, t)
             solver.attrs["backend"].attrs["make_pde_rhs"] = lambda eq, state: rhs_marking
@@ -230,7 +235,10 @@ def euler_loop_unit(which):
             if e is None:
                 U.prove(f"{nm}.iteration_ghost_recorded", P, z3.BoolVal(False))
                 continue
-            dt = z3.If(z3.If(e["dt_opt"] <= t1 - e["t"], e["dt_opt"], t1 - e["t"]) >= par["dmin"], z3.If(e["dt_opt"] <= t1 - e["t"], e["dt_opt"], t1 - e["t"]), par["dmin"])
+            dt = ghost.get("dt_code")
+            if dt is None:
+                U.prove(f"{nm}.iteration_ghost_recorded", P, z3.BoolVal(False))
+                continue
             mid = e["x"] + dt / 2 * FT(e["x"], e["t"])
             small = mid + dt / 2 * FT(mid, e["t"] + dt / 2)
             large = e["x"] + dt * FT(e["x"], e["t"])
@@ -238,7 +246,8 @@ def euler_loop_unit(which):
             U.prove(f"{nm}.ends_at_or_after_t_end", P, r >= t1)
             U.prove(f"{nm}.last_step_accepted_with_step_doubling_error<=tolerance", P, err <= par["tol"])
             U.prove(f"{nm}.final_state==two_half_steps", P, to_z3(u.read((0,))) == small)
-            U.prove(f"{nm}.ends_exactly_at_t_end_unless_gap_below_dt_min", P, z3.Or(r == t1, z3.And(t1 - e["t"] < par["dmin"], r - t1 < par["dmin"])))
+            U.prove(f"{nm}.ends_exactly_at_t_end", P, r == t1)
+            U.prove(f"{nm}.ends_at_t_end_or_less_than_dt_min_later", P, z3.Or(r == t1, z3.And(t1 - e["t"] < par["dmin"], r - t1 < par["dmin"])))
             U.prove(f"{nm}.info_steps", P, to_z3(info["steps"]) == par["s0"] + e["steps"] + 1)
         U.prove(f"euler_adaptive[{which}].has_return_path", [], z3.BoolVal(n_ret >= 1))
         U.assume_note("Euler adaptive loop: arbitrary time-dependent right-hand side f(u, t); loop invariant: the rate carried into an iteration is f(state, t) at the current time (stage times of the step-doubling scheme: t, t + dt/2, and t + dt for the rate that is reused by the next step)")
